@@ -227,6 +227,11 @@ Definition chk_631 (a o : list (list N)) : bool :=
   | _ => false
   end.
 
+(* ---- family 632: opening a stream of one kind while the other kind waits for credit ---- *)
+Definition chk_632 (a o : list (list N)) : bool :=
+  let pre := if argn 0 0 a =? 0 then emit_bi_preamble 0 else emit_uni_preamble 0 in
+  lists_eqb o [[1]; [1]; pre ++ [111; 116; 104; 101; 114; 45; 107; 105; 110; 100]; PENDING].
+
 (* ---- family 641: stream termination signals ---- *)
 Definition model_641 (a : list (list N)) : list (list N) :=
   let op := argn 0 0 a in let code := argn 0 1 a in let nb := argn 0 2 a in
@@ -363,6 +368,7 @@ Definition chk (c : case) : bool :=
   else if f =? 671 then chk_671 a o
   else if f =? 621 then chk_621 a o
   else if f =? 631 then chk_631 a o
+  else if f =? 632 then chk_632 a o
   else if f =? 651 then chk_651 a o
   else if f =? 661 then chk_661 a o
   else lists_eqb (model f a) o.
